@@ -177,7 +177,7 @@ impl<'r> Gen<'r> {
                 if out.contains(&cand) {
                     continue;
                 }
-            } else if mangled.contains(&m) || mangled.contains(&f) || (!self.cfg.hostile_idents && RUST_KEYWORDS.contains(&f.as_str())) || (self.cfg.hostile_idents && (f == "self" || cand.ends_with('-'))) {
+            } else if mangled.contains(&m) || mangled.contains(&f) || (!self.cfg.hostile_idents && RUST_KEYWORDS.contains(&f.as_str())) || (self.cfg.hostile_idents && (f == "self" || f == "true" || f == "false" || cand.ends_with('-'))) {
                 continue;
             }
             mangled.push(m);
